@@ -975,6 +975,13 @@ func streamOps(c *ctx) {
 			if silent && r.Chance(1, 2) { // right after a call nobody answered: its reply comes now, before this call's own
 				focus = "late-reply-of-previous-call"
 			}
+			if k%3 == 2 { // the application empties the device list it was handed (its own copy): nothing changes
+				dl := u.DeviceList()
+				for key := range dl {
+					delete(dl, key)
+				}
+				dl[dev] = uhppote.Device{DeviceID: dev, Protocol: "tcp"}
+			}
 			setLastOpCode(prevCode)
 			arr, cls := genArrivals(r, op, dev, focus)
 			runOp(c, u, d, g, op, dev, r.Chance(1, 6), arr, "phase/history", "arrivals/"+cls)
